@@ -58,3 +58,42 @@ Definition sd_page_stored (m : fmap) (max_pfn pfn : N) : res bool :=
        | Oob => Oob
        | Fuel => Fuel
        end.
+
+(** ** disk sets: which file the bitmaps are read from
+
+    [probe_file] records, for the file whose partition header says "disk #1", its file
+    index in [sp->ext[0].fidx]; the dump header, the sub-header and both bitmaps live
+    in that file only.  [read_bitmap] (file.pagemap) and [mem_pagemap_revalidate]
+    (memory.pagemap) must both read from it, wherever it stands in the order the
+    files were given.  [files] = the contents of the files in the order given,
+    [nums] = their disk numbers.  [mem_from_first = true] is the variant of
+    seeded/C07-c3 (memory bitmap fetched from file index 0). *)
+Fixpoint disk1_index (nums : list N) (i : N) : option N :=
+  match nums with
+  | [] => None
+  | d :: t => if d =? 1 then Some i else disk1_index t (i + 1)
+  end.
+
+Definition file_at (files : list (list N)) (fidx : N) : list N :=
+  nth (N.to_nat fidx) files [].
+
+(* (file index, offset, length) of the two sources *)
+Definition sd_file_src (g : sgeom) (fidx1 : N) : N * N * N := (fidx1, sg_bmp_pos g, sg_bmp_len g).
+Definition sd_mem_src (mem_from_first : bool) (g : sgeom) (fidx1 : N) : N * N * N :=
+  (if mem_from_first then 0 else fidx1, sg_mem_off g, sg_mem_size g).
+
+Definition sd_fetch (files : list (list N)) (src : N * N * N) : list N :=
+  let '(f, off, len) := src in slice (file_at files f) off len.
+
+Definition sd_set_file_regions (al : N) (files : list (list N)) (g : sgeom) (fidx1 max_pfn : N)
+           (orc : list bool) : N * (rres * list bool) :=
+  let maxb := sg_bmp_len g * 8 in
+  (if maxb <? max_pfn then maxb else max_pfn,
+   regions_from_bitmap true true al (sd_fetch files (sd_file_src g fidx1)) 0 maxb 0 SADUMP_PAGE [] orc).
+
+Definition sd_set_mem_regions (mem_from_first : bool) (al : N) (files : list (list N)) (g : sgeom)
+           (fidx1 max_pfn : N) (orc : list bool) : N * (rres * list bool) :=
+  let maxb := sg_mem_size g * 8 in
+  (if maxb <? max_pfn then maxb else max_pfn,
+   regions_from_bitmap true true al (sd_fetch files (sd_mem_src mem_from_first g fidx1)) 0 maxb 0
+                       SADUMP_PAGE [] orc).
